@@ -16,8 +16,8 @@ import (
 // against an origin that is slow or never answers - on one resource or on as
 // many resources as hits. Every one of them must be answered at once (0 virtual
 // time in the foreground), must start exactly one background request, and every
-// background request must be released at min(reply, timeout): what is already
-// in flight never makes a later caller wait.
+// background request must be released at min(reply, timeout) after it was
+// sent: what is already in flight never makes a later caller wait.
 
 type c20BurstCase struct {
 	Latency string `json:"latency"` // T-1ms | 10T | never
@@ -129,7 +129,9 @@ func c20Burst(r *run.Runner, c c20BurstCase) {
 		r.AddEvaluations(1)
 	}
 	issued := time.Since(start)
-	time.Sleep(10*T + 2*time.Hour)
+	// long enough for the requests to be sent one after the other, each held
+	// for the whole timeout
+	time.Sleep(time.Duration(c.N)*T + 10*T + 2*time.Hour)
 	w.Settle(nil, 0)
 	obs := exSummaries(w)
 	if len(obs) > 12 {
@@ -169,8 +171,14 @@ func c20Burst(r *run.Runner, c c20BurstCase) {
 		if !hang && lat < T {
 			want = lat
 		}
-		if took := bc.Exit.Sub(ex.TReturn); took != want {
-			r.Violation("background-timing", sig, fmt.Sprintf("background request of stale hit %d of %d lasted %v, expected %v (reply after %v / never=%v, timeout %v); %s", k+1, c.N, took, want, lat, hang, T, ex.Summary()), obs)
+		// measured from the moment the request was sent: a burst may be sent in
+		// turns (a bounded set of workers), which the statement allows as long
+		// as no caller waits and each request is bounded by the timeout
+		if took := bc.Exit.Sub(bc.Enter); took != want {
+			r.Violation("background-timing", sig, fmt.Sprintf("background request of stale hit %d of %d lasted %v from the moment it was sent, expected %v (reply after %v / never=%v, timeout %v); %s", k+1, c.N, took, want, lat, hang, T, ex.Summary()), obs)
+		}
+		if bc.Enter.Sub(ex.TReturn) != 0 {
+			r.Count("burst_background_requests_sent_later", 1)
 		}
 	}
 	if issued != 0 {
